@@ -132,6 +132,13 @@ def handle (op : String) (args : List String) : Option (String × String) :=
   | "i.dec", [a] => do
     let a ← pI a
     pure (di (GcdD.bigintDec P a), si (.ok (a.val - 1)))
+  -- api-coverage: `Integer::divides` = `self.is_multiple_of(other)` for both types
+  | "u.divides", [a, b] => do
+    let a ← pU a; let b ← pU b
+    pure (sb (GcdD.isMultipleOf P a b), sb (.ok (decide (val a % val b = 0))))
+  | "i.divides", [a, b] => do
+    let a ← pI a; let b ← pI b
+    pure (sb (GcdD.bigintIsMultipleOf P a b), sb (.ok (decide (a.val % b.val = 0))))
   | _, _ => none
 
 end NB.Drv.C13
